@@ -456,6 +456,13 @@ func init() {
 		}
 		return SMatch{Target: tg, Lits: []SArm{lit}, VarName: "w", Last: b}
 	}})
+	// a literal pattern with escapes (quote, tab, backslash): pattern and expression must denote the same text
+	add(prod{name: "match-string-escapes", app: any_, mk: func(g *Gen, t Type, env Env2, fuel, pos int) Expr {
+		f := g.split(fuel-1, 2)
+		special := "q\"t\tb\\n"
+		tg := []Expr{trS(special), trS("q")}[g.C.Choose(2)]
+		return SMatch{Target: tg, Lits: []SArm{{special, g.blk(t, env, f[0])}, {"q\\", g.blk(t, env, 0)}}, Last: g.blk(t, env, f[1])}
+	}})
 	// 12 let (every binder type)
 	for _, bt := range binderTypes {
 		bt := bt
